@@ -23,5 +23,6 @@ func controlsC07() []Control {
 		{Name: "release operation records nothing", Expect: "R5", Mutate: replaceIn("(*tableEngine).ReleaseTable", "te.isReleased = true", "te.isReleased = false", 0)},
 		{Name: "closing no longer releases", Expect: "R5", Mutate: replaceIn("(*tableEngine).CloseTable", "\tte.ReleaseTable()\n", "", 0)},
 		{Name: "seated-in flag excluded from the JSON clone", Expect: "R7", Mutate: replaceInFile("/table.go", "`json:\"is_in\"`", "`json:\"-\"`")},
+		{Name: "clone decodes into a copy of the receiver", Expect: "R7", Mutate: replaceIn("(Table).Clone", "var cloneTable Table", "cloneTable := t", 0)},
 	}
 }
